@@ -24,7 +24,8 @@ ASSUMPTIONS = ["the reference walk uses os.scandir/os.stat on the same directory
 MECH = ["nutree.fs:load_tree_from_fs", "nutree.fs:FileSystemEntry.__init__", "nutree.fs:FileSystemTree.serialize_mapper",
         "nutree.fs:FileSystemTree.deserialize_mapper"]
 MIN_NONTRIVIAL = {"quick": 60, "thorough": 1500}
-NAMES = ["a", "B", "a.b", "a-b", "a b", "ä", "Z", "z", "10", "9", "_x", "日本", "a.txt", "A.txt", "b", "c.d.e", "é", "~t"]
+NAMES = ["a", "B", "a.b", "a-b", "a b", "ä", "Z", "z", "10", "9", "_x", "日本", "a.txt", "A.txt", "b", "c.d.e", "é", "~t",
+         "e\u0301", "A\u030a.txt"]  # decomposed forms: other names than their composed twins ("é")
 
 
 def make_dir(rng, root):
@@ -170,6 +171,12 @@ def run_case(case, res):
                 bad.append(f"load returned {type(t2).__name__}")
             if tree_listing(t2) != got:
                 bad.append(f"save/load changed the listing: {tree_listing(t2)!r} vs {got!r}")
+            # the mappers are class-level functions: the plain Tree class with these mappers reads the same listing
+            from nutree import Tree as _Tree
+
+            tb = _Tree.load(pth, mapper=FileSystemTree.deserialize_mapper)
+            if tree_listing(tb) != got:
+                bad.append(f"Tree.load(mapper=FileSystemTree.deserialize_mapper) changed the listing: {tree_listing(tb)!r} vs {got!r}")
             # default mappers of the class (no mapper argument)
             t.save(pth)
             t3 = FileSystemTree.load(pth)
